@@ -237,6 +237,22 @@ func GetAttrString(self Object, key string) (res Object, err error) {
 		}
 	}
 
+	// An attribute of a class is looked up in the class and then along
+	// its MRO; what is found is bound with no instance, so classmethods
+	// bind the class and staticmethods unwrap
+	if typ, ok := self.(*Type); ok && typ.Mro != nil {
+		if res = typ.NativeGetAttrOrNil(key); res != nil {
+			if _, isProperty := res.(*Property); isProperty {
+				// a property read on the class is the property itself
+				return res, nil
+			}
+			if I, ok := res.(I__get__); ok {
+				return I.M__get__(None, typ)
+			}
+			return res, nil
+		}
+	}
+
 	// Look in the instance dictionary if it exists
 	if I, ok := self.(IGetDict); ok {
 		dict := I.GetDict()
